@@ -219,6 +219,59 @@ def relation_check(mon: Monitor, name: str, vals) -> None:
                 mon.check(h2 == hashes[i], f"{name}.{how}-hash", lambda: {"a": desc(i)}, key="eq-hash")
 
 
+    # read-only use: queries and accessors must not change what a value is (token, hash, equality with a clone made beforehand)
+    for i, v in enumerate(vals):
+        clone, e = call(lambda: pickle.loads(pickle.dumps(v)))
+        if e is not None:
+            continue
+        eq_before, _ = call(lambda: bool(v == clone) and bool(clone == v))
+        nops = readonly_use(name, v)
+        t_after, _ = call(tok, v)
+        h_after, _ = call(hash, v) if hashes[i] is not None else (None, None)
+        eq_after, _ = call(lambda: bool(v == clone) and bool(clone == v))
+        t_clone, _ = call(tok, clone)
+        ok = t_after == tokens[i] and (hashes[i] is None or h_after == hashes[i]) and eq_after == eq_before and (not eq_after or name == "GCPGeoBox" or t_clone == t_after)
+        mon.check(ok, f"{name}.readonly-use", lambda: {"a": desc(i), "operations": nops, "token_before": tokens[i], "token_after": t_after, "clone_token": t_clone, "hash_same": h_after == hashes[i],
+                  "equal_to_clone_before": eq_before, "equal_to_clone_after": eq_after}, key="changed-by-readonly-use", sig=hsig(name, "ro", tokens[i]))
+
+
+def readonly_use(name: str, v) -> int:
+    """A battery of queries / accessors that do not (are not supposed to) modify the value; exceptions are irrelevant here. Returns how many ran."""
+    ops = []
+    if name == "CRS":
+        ops = [lambda: v.epsg, lambda: v.wkt, lambda: v.units, lambda: v.geographic, lambda: v.dimensions, lambda: str(v), lambda: repr(v), lambda: v.to_wkt(pretty=True),
+               lambda: v.transformer_to_crs(type(v)("EPSG:4326")), lambda: v.proj.area_of_use, lambda: v.authority]
+    elif name == "GridSpec":
+        from odc.geo.geom import BoundingBox
+
+        ts = v.tile_size
+        bb = BoundingBox(v.origin.x + 0.1 * ts.x, v.origin.y + 0.1 * ts.y, v.origin.x + 1.7 * ts.x, v.origin.y + 1.2 * ts.y, v.crs) if hasattr(v, "origin") else None
+        ops = [lambda: v.tile_geobox((0, 0)), lambda: v[1, -1], lambda: v.pt2idx(0.0, 0.0), lambda: list(v.tiles(bb)), lambda: list(v.tiles_from_geopolygon(bb.polygon)), lambda: v.geojson(bbox=bb),
+               lambda: v.idx_bounds(bb), lambda: v.alignment, lambda: v.dimensions, lambda: str(v), lambda: repr(v)]
+    elif name in ("GeoBox", "GCPGeoBox"):
+        ops = [lambda: v.extent, lambda: v.boundingbox, lambda: v.geographic_extent, lambda: v.footprint("EPSG:4326"), lambda: v.coordinates, lambda: v.resolution, lambda: v.center_pixel,
+               lambda: v.transform, lambda: v[0:1, 0:1], lambda: v.zoom_out(2), lambda: v.pad(1), lambda: str(v), lambda: repr(v), lambda: v.dimensions, lambda: v.linear, lambda: v.approx if hasattr(v, "approx") else None,
+               lambda: v.map_bounds(), lambda: v.wld2pix(0.0, 0.0), lambda: v.pix2wld(0.0, 0.0)]
+    elif name == "GeoboxTiles":
+        ops = [lambda: v[0, 0], lambda: v.chunks, lambda: v.shape, lambda: list(v.tiles(v.base.extent)), lambda: v.roi, lambda: v.base, lambda: v.chunk_shape((0, 0)), lambda: v.range_from_bbox(v.base.boundingbox),
+               lambda: v.grid_intersect(v), lambda: str(v)]
+    elif name in ("Tiles", "VariableSizedTiles"):
+        ops = [lambda: v[0, 0], lambda: v.chunks, lambda: v.shape, lambda: v.base, lambda: v.tile_shape((0, 0)), lambda: v.locate((0, 0)), lambda: v.crop((slice(0, 1), slice(0, 1))), lambda: str(v), lambda: repr(v)]
+    elif name == "Geometry":
+        ops = [lambda: v.boundingbox, lambda: v.area, lambda: v.length, lambda: v.wkt, lambda: v.json, lambda: v.centroid, lambda: v.envelope, lambda: v.is_valid, lambda: v.to_crs("EPSG:3857"), lambda: v.geojson(),
+               lambda: v.__geo_interface__, lambda: str(v), lambda: repr(v)]
+    elif name == "BoundingBox":
+        ops = [lambda: v.polygon, lambda: v.bbox, lambda: v.span_x, lambda: v.points, lambda: v.buffered(1), lambda: v.to_crs("EPSG:3857") if v.crs is not None else None, lambda: v.map_bounds(), lambda: str(v), lambda: repr(v),
+               lambda: v.aspect, lambda: v.boundary(3)]
+    else:
+        ops = [lambda: str(v), lambda: repr(v), lambda: tuple(v.xy) if hasattr(v, "xy") else None, lambda: v.aspect if hasattr(v, "aspect") else None]
+    n = 0
+    for op in ops:
+        _, e = call(op)
+        n += e is None
+    return n
+
+
 # --------------------------------------------------------------------------- B/C. CRS pool, routes, histories
 def epsg_pool(rng: random.Random, n: int):
     import pyproj
@@ -505,6 +558,7 @@ def run(mon: Monitor, tier: str, seed: int, shard: int, nshards: int) -> None:
         mon.floor(f"{name}.transitive", 3)
         mon.floor(f"{name}.pickle-equal", 10)
         mon.floor(f"{name}.uneq-token", 30)
+        mon.floor(f"{name}.readonly-use", 10)
     for pt, n in [("CRS.routes", 500), ("history", 300), ("transformer-cache", 100), ("transformer-cache|always_xy|lookalike", 20), ("GeoBox.eq-hash", 3), ("BoundingBox.eq-hash", 3), ("XY.eq-hash", 3), ("CRS.eq-hash", 3),
                   ("history|after-colliding-route|wkt", 1), ("history|after-colliding-route|pyproj", 1), ("CRS.routes|wkt~pyproj", 10), ("CRS.routes|int~json", 10)]:
         mon.floor(pt, n)
